@@ -3,7 +3,9 @@
 (* declaration governs which element (C20).                                     *)
 (*                                                                            *)
 (* The fixed schema of this module (rendered by the harness):                   *)
-(*   lib   := item+                                                             *)
+(*   lib   := item+, any{0,1} of another namespace, LAX: an undeclared wrapper  *)
+(*            x:wrap is admitted without a declaration, but the element x:num    *)
+(*            inside it has a global declaration (xs:int) and is assessed        *)
 (*   item  := @id:int (required) @flag:boolean?  title:string, qty:int,         *)
 (*            note:string?, sub?, memo? (mixed content, FIXED value "draft";    *)
 (*            present in the items that carry a flag), any{0,2} of another      *)
@@ -30,7 +32,9 @@ ItemDevs == {"none", "badqty", "missingtitle", "missingqty", "extrachild", "extr
              "badid", "missingid", "bogusattr", "bogusontitle", "badflag",
              "badsubqty", "emptysub", "extrainsub", "textinitem", "unknownext", "badmemo",
              "baduc"}         \* a value of @uc that NO member type of the union can read
-RootDevs == {"none", "extrainroot", "extrafirstinroot", "noitems", "bogusonroot"}
+RootDevs == {"none", "extrainroot", "extrafirstinroot", "noitems", "bogusonroot",
+             "laxok",        \* NOT a fault: the lax extension with a valid x:num inside the undeclared wrapper
+             "badinlax"}     \* the same with an invalid x:num: the error belongs to that node
 
 Node(p, name, decl, attrs, text) == [path |-> p, name |-> name, decl |-> decl, attrs |-> attrs, text |-> text]
 
@@ -120,8 +124,14 @@ Doc(f) ==
      \o (IF f.at = 0 /\ f.dev = "extrafirstinroot" THEN <<Node(<<1>>, "zzz", "none", {}, "-")>> ELSE <<>>)
      \o (IF n = 0 THEN <<>> ELSE AllItems(1, f))
      \o (IF f.at = 0 /\ f.dev = "extrainroot" THEN <<Node(<<Len(items) + 1>>, "zzz", "none", {}, "-")>> ELSE <<>>)
-Target(f) == IF f.dev = "none" THEN <<>>
+     \o (IF f.at = 0 /\ f.dev \in {"laxok", "badinlax"}
+           THEN <<Node(<<Len(items) + 1>>, "wrap", "wild", {}, "-"),
+                  Node(<<Len(items) + 1, 1>>, "num", "wild", {}, IF f.dev = "badinlax" THEN "bad" ELSE "ok")>>
+           ELSE <<>>)
+IsFault(f) == f.dev \notin {"none", "laxok"}
+Target(f) == IF ~IsFault(f) THEN <<>>
              ELSE IF f.at = 0 THEN (IF f.dev = "extrainroot" THEN <<Len(items) + 1>>
+                                    ELSE IF f.dev = "badinlax" THEN <<Len(items) + 1, 1>>
                                     ELSE IF f.dev = "extrafirstinroot" THEN <<1>> ELSE <<>>)
              ELSE ItemTarget(<<f.at + Shift(fault)>>, items[f.at], f.dev)
 
@@ -136,18 +146,18 @@ Init == /\ items \in UNION {[1..n -> ItemCfg] : n \in 1..MaxItems}
         /\ (fault.at = 0 \/ (fault.at <= Len(items) /\ Applicable(items[fault.at], fault.dev)))
         /\ IF Double
              THEN /\ fault2 \in {[at |-> i, dev |-> d] : i \in 1..MaxItems, d \in ItemDevs \ {"none"}}
-                  /\ fault.dev # "none" /\ fault.dev # "noitems" /\ fault2.at # fault.at
+                  /\ IsFault(fault) /\ fault.dev # "noitems" /\ fault2.at # fault.at
                   /\ fault2.at <= Len(items) /\ Applicable(items[fault2.at], fault2.dev)
              ELSE fault2 = [at |-> 0, dev |-> "none"]
 Next == FALSE /\ UNCHANGED <<items, fault, fault2>>
 Spec == Init /\ [][Next]_<<items, fault, fault2>>
 
 (* laws *)
-TargetExists == fault.dev = "none" \/ fault.dev \in {"noitems", "bogusonroot"}
+TargetExists == ~IsFault(fault) \/ fault.dev \in {"noitems", "bogusonroot"}
                   \/ LET D == Doc(fault) T == Target(fault) IN \E i \in DOMAIN D : D[i].path = T
 PathsUnique == LET D == Doc(fault) IN
                  Cardinality({D[i].path : i \in DOMAIN D}) = Len(D)
 
-Emit == PrintT(ToJson([nodes |-> Doc(fault), fault |-> fault, fault2 |-> fault2, valid |-> fault.dev = "none",
+Emit == PrintT(ToJson([nodes |-> Doc(fault), fault |-> fault, fault2 |-> fault2, valid |-> ~IsFault(fault),
                        target |-> Target(fault), near |-> Near(fault)]))
 =============================================================================
